@@ -35,6 +35,7 @@ RULE = (
     'TaggedValueNotFilledError. Non-trivial: >=2 tagged arguments of which one matches only '
     'through a subclass and one is on a shared node, or a tag on a positional argument.'
 )
+RULE += (' ' + 'Round 6: a diff pair with a callable change together with tags added and removed on parameters both callables have.')
 RULE += (' ' + 'Rounds 4-5: tags right after construction compared with an expectation computed from the recipe; two tag classes with the same __name__; a diff pair with a callable change and removal of a tag on a parameter only the old callable has.')
 ASSUMPTIONS = [
     'v contains no T-tagged argument (otherwise the post-condition is ambiguous)',
